@@ -1,7 +1,7 @@
 --------------------------- MODULE ResourceAccessMC ---------------------------
 (* Bounded configurations of ResourceAccess (X07, P6): exhaustive model       *)
 (* checking, the graph for the transition cover, reachability witnesses.      *)
-EXTENDS ResourceAccess
+EXTENDS ResourceAccess, Json
 
 \* the URIs read in the bounded configurations: E1's, E2's (also matched by Tda, Tp, Tab, Tany), one that only
 \* templates match, one that nothing matches
@@ -27,4 +27,15 @@ NeverServedByReplaced == ~(res.kind = "read" /\ res.out.k = "T" /\ tm[res.out.ke
 NeverTemplateDespiteExact == ~(res.kind = "read" /\ res.out.k = "T" /\ ~NoExact(ex, res.u))      \* exact added after the lookup
 NeverNotFoundDespiteRegistered == ~(res.kind = "read" /\ res.out = NotFound /\ Cardinality(res.poss) >= 2)    \* removed before the lookup
 NeverSecondTemplate == ~(res.kind = "read" /\ res.out.k = "T" /\ \E y \in XT : tm[y] > 0 /\ Match(y, res.u) /\ TemplateRank(y) < TemplateRank(res.out.key))
+
+\* all witnesses in ONE run (with -workers 1): a CONSTRAINT records in TLC registers 11..16 which of them have been
+\* reached, the POSTCONDITION demands all of them
+WitPreds == <<NeverAmbiguous, NeverServedByRemoved, NeverServedByReplaced, NeverTemplateDespiteExact,
+              NeverNotFoundDespiteRegistered, NeverSecondTemplate>>
+WitInit == \A i \in 1..6 : TLCSet(10 + i, 0)
+WitSpec == (Init /\ WitInit) /\ [][Next]_vars
+WitMark == IF res.kind # "read" THEN TRUE       \* every witness is about the outcome of a read
+           ELSE \A i \in 1..6 : IF ~WitPreds[i] /\ TLCGet(10 + i) = 0 THEN TLCSet(10 + i, 1) ELSE TRUE
+WitAll == IF \A i \in 1..6 : TLCGet(10 + i) = 1 THEN TRUE
+          ELSE PrintT(ToJson([witness_missing |-> {i \in 1..6 : TLCGet(10 + i) = 0}])) /\ FALSE
 =============================================================================
